@@ -807,3 +807,6 @@ def run(S):
     C18.rule_slice(S)
     from checks import C13
     C13.rule_stg(S, only=('yakushima::scan',))
+    # mechanisms this property rests on (checks/shared.py)
+    from checks import shared
+    shared.key_order(S)
